@@ -27,6 +27,15 @@ func (fr *frame) call(ci ssa.CallInstruction, res ssa.Value, st *State, reach st
 		args = append(args, fr.val(a))
 	}
 	sig := com.Signature()
+	// the address of a package-level variable handed to a callee: the callee may mutate shared state (hidden state / race)
+	if fr.fn.Name() != "init" {
+		for _, a := range args {
+			if a.P != nil && a.P.Global != "" && strings.HasPrefix(a.P.Global, "G|"+repoPrefix) {
+				ft.addObl(fr, "global-write", fr.tag+strings.TrimPrefix(a.P.Global, "G|"+repoPrefix+"/")+":escapes", reach, "false",
+					"passes the address of a package-level variable to a call (shared mutable state)", []string{"C09", "C20"}, nil)
+			}
+		}
+	}
 	// builtins
 	if b, ok := com.Value.(*ssa.Builtin); ok {
 		setRes(fr.builtin(b, com, args, st, reach, res))
